@@ -23,6 +23,10 @@ typedef struct {
 	uint64_t memlimit;
 	uint32_t flags;
 
+	/// True if the input was detected to be in the .lzma format.
+	/// The .xz and .lz decoders handle LZMA_CONCATENATED themselves.
+	bool is_lzma_alone;
+
 	enum {
 		SEQ_INIT,
 		SEQ_CODE,
@@ -54,6 +58,8 @@ auto_decode(void *coder_ptr, const lzma_allocator *allocator,
 		// first byte of a .lzma file but luckily it would mean
 		// lc/lp/pb being 4/3/1 which liblzma doesn't support because
 		// lc + lp > 4. So using just 0x4C to detect .lz is OK here.
+		coder->is_lzma_alone = false;
+
 		if (in[*in_pos] == 0xFD) {
 			return_if_error(lzma_stream_decoder_init(
 					&coder->next, allocator,
@@ -67,6 +73,7 @@ auto_decode(void *coder_ptr, const lzma_allocator *allocator,
 		} else {
 			return_if_error(lzma_alone_decoder_init(&coder->next,
 					allocator, coder->memlimit, true));
+			coder->is_lzma_alone = true;
 
 			// If the application wants to know about missing
 			// integrity check or about the check in general, we
@@ -86,8 +93,13 @@ auto_decode(void *coder_ptr, const lzma_allocator *allocator,
 				coder->next.coder, allocator,
 				in, in_pos, in_size,
 				out, out_pos, out_size, action);
+		// The check for trailing garbage below is only for .lzma.
+		// With .lz files it would make non-.lz data after the last
+		// member an error although lzma_lzip_decoder() leaves such
+		// data unread on purpose.
 		if (ret != LZMA_STREAM_END
-				|| (coder->flags & LZMA_CONCATENATED) == 0)
+				|| (coder->flags & LZMA_CONCATENATED) == 0
+				|| !coder->is_lzma_alone)
 			return ret;
 
 		coder->sequence = SEQ_FINISH;
